@@ -60,6 +60,11 @@ CHECKS = {
          "For each of 42 (quick) / 105 (thorough) sketcher kinds (all 9 sketcher types x sizes x register types x entry points incl. std HashMap) every interleaving at call granularity of the call sequences (construction included) of 2 instances x 4 (5) steps and 3 instances x 3 (4) steps is executed, with identical and with different inputs (147000 interleavings quick); each instance must return its solo result. This closes the schedule quantifier at call granularity, which is where state hoisted into a static / thread-local / process global shows; the unchanged crate has no lock or atomic, so there is no finer scheduling point for a controlled scheduler. Then 20 (100) barrier-released rounds of 2..16 OS threads (sampling, labelled as such) and 8 (32) process launches whose digests must agree bit for bit.",
          "threads are sampled, not enumerated; a data race inside a call introduced via unsafe would need a race detector",
          "DESIGN.md §4 C12"),
+ "C10": ("exploration",
+         "exhaustive enumeration of rankings (target value) + exhaustive block enumeration of race tables and labellings on the real code",
+         "The order-min-hash similarity of each sequence pair is computed by enumerating all ranking prefixes (cross-checked against all P! rankings for unions of <=8-9 pairs). By C11 (decided exactly) a position keeps the l smallest race values, so the collision probability equals the target iff the race tables of distinct (element,occurrence) pairs are exchangeable: for every element of a block of 2^14 (2^17) labels the tables of occurrences 1..3 are read from the real code (hook H4); bit-identical values across occurrences must not exist, P(occ_i<occ_j)=1/2, laws equal across occurrences/elements/positions (two-sample KS), no rank correlation. End-to-end: 13 sequence pairs (identical, reversed, shifted, one edit, common prefix, disjoint, repeats, the suite's patterns) x l in {1,2,3,5} x m in {1,4,16,64} = 168 configurations, 2e4..4e5 disjoint labellings each hashed by the same instance; mean within 6 standard errors of the target (exactly 0/1 where the target is 0/1), confirmed on a 4x larger fresh block before reporting.",
+         "finite-population statement about the enumerated blocks; shifts below ~3/sqrt(N) are not resolved",
+         "DESIGN.md §4 C10"),
 }
 PENDING_REASON = "check not built yet in this revision (see DESIGN.md §4 for the planned model-checking approach)"
 
